@@ -66,14 +66,10 @@ pub fn create_module() -> Scope {
         Ok(Numeric::new(val.value.floor(), val.unit).into())
     });
     def_va!(f, max(numbers), |s| {
-        let numbers = unnamed(s.get_va(name!(numbers)))?;
-        find_extreme(&numbers, Ordering::Greater)?
-            .map_or_else(|| Ok(Value::call("max", numbers)), |v| Ok(v.into()))
+        extreme("max", s, Ordering::Greater, false)
     });
     def_va!(f, min(numbers), |s| {
-        let numbers = unnamed(s.get_va(name!(numbers)))?;
-        find_extreme(&numbers, Ordering::Less)?
-            .map_or_else(|| Ok(Value::call("min", numbers)), |v| Ok(v.into()))
+        extreme("min", s, Ordering::Less, false)
     });
     def!(f, round(number), round::sass_round);
 
@@ -193,8 +189,6 @@ pub fn expose(m: &Scope, global: &mut FunctionMap) {
         // - - - Boundig Functions - - -
         (name!(ceil), name!(ceil)),
         (name!(floor), name!(floor)),
-        (name!(max), name!(max)),
-        (name!(min), name!(min)),
         // - - - Unit Functions - - -
         (name!(comparable), name!(compatible)),
         (name!(unitless), name!(is_unitless)),
@@ -207,6 +201,12 @@ pub fn expose(m: &Scope, global: &mut FunctionMap) {
     }
 
     // Functions behave somewhat differently in the global scope vs in the math module.
+    def_va!(global, max(numbers), |s| {
+        extreme("max", s, Ordering::Greater, true)
+    });
+    def_va!(global, min(numbers), |s| {
+        extreme("min", s, Ordering::Less, true)
+    });
     css::global(global);
     distance::global(global);
     def_va!(global, round(kwargs), round::css_round);
@@ -232,9 +232,29 @@ fn deg_value(rad: f64) -> Value {
     Numeric::new(rad.to_degrees(), Unit::Deg).into()
 }
 
+/// Implement the `min` and `max` functions.
+///
+/// The global (css) functions may remain unevaluated when the
+/// numbers have units that only css knows how to compare.
+/// The module functions do that only if some argument is not a
+/// plain number, otherwise such units are an error.
+fn extreme(
+    name: &str,
+    s: &ResolvedArgs,
+    pref: Ordering,
+    global: bool,
+) -> Result<Value, CallError> {
+    let numbers = unnamed(s.get_va(name!(numbers)))?;
+    let css_fallback =
+        global || !numbers.iter().all(|n| matches!(n, NumOrSpecial::Num(_)));
+    find_extreme(&numbers, pref, css_fallback)?
+        .map_or_else(|| Ok(Value::call(name, numbers)), |v| Ok(v.into()))
+}
+
 fn find_extreme(
     v: &[NumOrSpecial],
     pref: Ordering,
+    css_fallback: bool,
 ) -> Result<Option<Numeric>, ExtremeError> {
     let mut v = v.iter();
     let found = v.next().ok_or(ExtremeError::OneRequired)?;
@@ -248,7 +268,7 @@ fn find_extreme(
         };
         if let Some(o) = cmp2(found, v) {
             found = if o == pref { found } else { v };
-        } else if may_cmp_css(found, v) {
+        } else if css_fallback && may_cmp_css(found, v) {
             return Ok(None);
         } else {
             return Err(ExtremeError::Incompatible(
